@@ -3,66 +3,7 @@ import json, os, random, time
 from vlib import *
 from chanlib import *
 
-ASSUME = [
-    "TLC 1.8 explores the bounded configurations exhaustively; larger configurations are only sampled",
-    "the gate scheduler serialises the real goroutines at the hooks of build tag verif and at the mock transport; "
-    "interleavings between two gates are not explored",
-    "mock transport/executor stand in for TCP and the goroutine executor",
-    "verdicts come only from the observable-level oracle on the real code; spec-only counterexamples are replayed first",
-]
-
-
-class Ctx:
-    """One check run: collects counters for the evidence file."""
-
-    def __init__(self, pid, tier, seed):
-        self.pid, self.tier, self.seed = pid, tier, seed
-        self.rnd = random.Random(seed * 1000003 + sum(map(ord, pid)))
-        self.wd = workdir(pid)
-        self.t0 = time.time()
-        self.states = 0
-        self.transitions = 0
-        self.mc_runs = []
-        self.traces_validated = 0
-        self.replays = 0
-        self.edges_total = 0
-        self.edges_walked = 0
-        self.nonconforming = []
-        self.schedule_divergences = 0
-        self.samples = []
-        self.fails = []        # (fail dict, case) of this property
-        self.other_fails = {}  # prop -> count
-        self.actions = {}
-        self.harness_errors = []
-        self.selftests = {}
-        self.driver = None
-        self.notes = []
-
-    def build(self):
-        self.driver, bt = build_driver(self.wd)
-        return self.driver
-
-    def add_mc(self, res, c, what):
-        self.states += res.get("distinct", 0)
-        self.transitions += res.get("generated", 0)
-        self.mc_runs.append({"what": what, "distinct": res.get("distinct"), "generated": res.get("generated"),
-                             "depth": res.get("depth"), "wall_s": round(res["wall"], 1),
-                             "violated": res.get("violated")})
-
-    def absorb(self, results, cases):
-        byid = {c["id"]: c for c in cases}
-        for r in results:
-            self.replays += 1
-            self.schedule_divergences += r.get("diverged", 0)
-            for k, v in (r.get("actions") or {}).items():
-                self.actions[k] = self.actions.get(k, 0) + v
-            if r.get("harness_err"):
-                self.harness_errors.append((r["id"], r["harness_err"]))
-            for f in r.get("fails") or []:
-                if f["prop"] == self.pid:
-                    self.fails.append((f, byid[r["id"]], r))
-                else:
-                    self.other_fails[f["prop"]] = self.other_fails.get(f["prop"], 0) + 1
+from core import *
 
 
 def mc_and_replay_cex(cx, name, c, invariants, properties=(), spec="Spec", maxpolls=2, what="", timeout=900,
@@ -143,68 +84,6 @@ def random_runs(cx, name, c, n, policies=("uniform", "pct", "window"), fault_pro
         cx.samples.append({"config": c, "policy": cases[-1]["random"]["policy"], "schedule": r["sched"][:40],
                            "final": r["final"]})
     return results
-
-
-def finish(cx, level_text_extra=None, rule=None):
-    """Verdict + evidence. Returns exit code."""
-    pid = cx.pid
-    rc = 0
-    known = {}
-    new = []
-    for f, case, r in cx.fails:
-        kf = open_finding(pid, f["key"])
-        if kf:
-            known.setdefault(kf["key"], (kf, f))
-        else:
-            new.append((f, case, r))
-    for key, (kf, f) in sorted(known.items()):
-        log("KNOWN-FINDING: property=%s %s [%s] e.g. %s" % (pid, kf["what"], key, f["msg"]))
-    seen = set()
-    for f, case, r in new:
-        if f["key"] in seen:
-            continue
-        seen.add(f["key"])
-        case = dict(case)
-        case["schedule"] = [s[:2] for s in r["sched"]]
-        case.pop("random", None)
-        path = save_replay(pid, {"module": "chan", "case": case, "fail": f})
-        log("VIOLATION property=%s replay=%s" % (pid, path))
-        log("  %s: %s" % (f["key"], f["msg"]))
-        rc = 1
-    if cx.harness_errors and rc == 0:
-        log("INCONCLUSIVE: %d driver cases failed in the harness, e.g. %s" % (len(cx.harness_errors), cx.harness_errors[0]))
-        rc = 2
-    if cx.nonconforming and rc == 0:
-        log("NONCONFORMING: %d recorded executions are not behaviours of the specification (first: %s); "
-            "the observable-level oracle passed on all of them, so this is not reported as a violation"
-            % (len(cx.nonconforming), cx.nonconforming[0]))
-    cov = {
-        "states": max(cx.states, 1), "transitions": max(cx.transitions, 1),
-        "traces_validated_against_impl": cx.traces_validated,
-        "samples": cx.samples or [{"note": "no sample"}],
-        "evaluations": cx.replays,
-        "distinct_nontrivial": cx.edges_walked,
-        "rule": rule or ("cases = TLC state-graph edge-cover schedules and seeded random schedules executed on the real "
-                         "channel through the gate scheduler; distinct_nontrivial = distinct spec transitions (graph edges) "
-                         "the real code was observed to take"),
-        "model_checking_runs": cx.mc_runs,
-        "replays_on_real_code": cx.replays,
-        "graph_edges_total": cx.edges_total, "graph_edges_walked_by_real_code": cx.edges_walked,
-        "nonconforming": len(cx.nonconforming), "nonconforming_detail": cx.nonconforming[:5],
-        "schedule_divergences": cx.schedule_divergences,
-        "real_code_actions": cx.actions,
-        "oracle_failures_of_other_properties_seen": cx.other_fails,
-        "selftests": cx.selftests,
-        "known_findings_reproduced": sorted(known.keys()),
-        "tree_model": TREE,
-        "exhaustive": False,
-        "notes": cx.notes,
-    }
-    write_evidence(pid, cx.tier, cx.seed, "model_checking", cov, time.time() - cx.t0, len(seen), ASSUME)
-    cleanup(cx.wd)
-    log("%s %s: exit %d  (%d TLC states, %d replays on real code, %d traces validated, %d/%d graph edges walked, %.1fs)"
-        % (pid, cx.tier, rc, cx.states, cx.replays, cx.traces_validated, cx.edges_walked, cx.edges_total, time.time() - cx.t0))
-    return rc
 
 
 # ---------------------------------------------------------------- configurations
